@@ -6,6 +6,7 @@ props = [json.loads(l) for l in open(os.path.join(V, "properties.jsonl"))]
 ids = [p["id"] for p in props]
 
 CLAIMED = {
+ "C14": ("model_checking", "Frag.tla: the sender's piece arithmetic checked by TLC for all lengths and sizes in range and both header lengths (PieceBound, Lossless), the receiver's reassembly automaton over every arrival sequence (next, restart, wrong total, duplicate, illegal index, foreign instance, garbage, whole message in between) with OnlyComplete/ProcessedOnce; every transition's schedule replayed on a real Conversation under v2 and v3 with context and processed messages compared to the model state; the real fragmenter swept over fragment sizes x message lengths (all 65536 sizes, lengths up to 200000, thorough) against the model's arithmetic and an independent reassembler; sender->receiver exhaustively for small lengths; fragment sizes swept inside real sessions", "6/C14"),
  "C11": ("model_checking", "TLC invariants SMPSuccessSound/SMPFailureSound/SMPNotStuck over all interleavings of SMP user calls and deliveries (either initiator, question, abort, restarts, traffic in between, v2 and v3); exported schedules and seeded SMP-heavy runs with secrets ranging over empty, one byte, 64 KiB, all byte values, one-bit and length differences on the real code; a relay between two separately keyed sessions (attacker-run endpoints passing SMP payloads verbatim); outcome events validated against the bound-secret-term rule of the specification", "6/C11"),
  "C12": ("model_checking", "TLC over SMP calls and messages in every state, on the duplicating/reordering/dropping network; on the real code every MPI field of every SMP message replaced by each boundary value (0,1,p-1,p,p+1,q,random,honest+-1), element miscounts, question without terminator, a degenerate message 2 with consistent proofs, each inside a properly authenticated data message, each followed by an honest run that must succeed; panic/time/allocation monitored", "6/C12"),
  "C01": ("model_checking", "TLC invariants AuthInv/AgreeInv on every start pattern and on the reordering/duplicating/dropping network; on the real code: every TLC-exported handshake schedule with tampered copies (every field; every byte and cut in the thorough tier) and tampered replacements of each AKE message, plus an attack catalogue with an active attacker E built from the independent reference (impersonation with and without the victim's key claimed, signature over swapped values, wrong key set, degenerate DH values 0,1,p-1,p,p+1 with the matching shared secret, cross-session replay of both roles, reflection), in a fresh and in an already encrypted victim, v2 and v3; each step validated by TLC against OTR.tla and AuthInv evaluated on the observed state", "6/C01"),
